@@ -206,6 +206,8 @@ pub struct CallSetParams {
     pub allow_no_gt: bool,
     /// weights over record kinds
     pub kind_w: [u32; N_KINDS],
+    /// a cohort beyond the usual small-data thresholds (86 .. 300 samples, most of them selected)
+    pub big_cohort: bool,
 }
 
 impl CallSetParams {
@@ -220,6 +222,7 @@ impl CallSetParams {
             allow_strict: false,
             allow_no_gt: false,
             kind_w: [6, 3, 2, 2, 1, 2, 2, 2, 0, 0, 1, 1, 1, 1],
+            big_cohort: false,
         }
     }
 }
@@ -277,7 +280,13 @@ pub fn gen_config(rng: &mut Rng, samples: &[String], p: &CallSetParams) -> Confi
         };
         let mut idx: Vec<usize> = (0..n).collect();
         rng.shuffle(&mut idx);
-        let k = if many { n } else { rng.range(1, n) };
+        let k = if many {
+            n
+        } else if p.big_cohort {
+            rng.range(n - n / 8, n)
+        } else {
+            rng.range(1, n)
+        };
         let mut list: Vec<(String, Option<String>)> = idx[..k]
             .iter()
             .enumerate()
@@ -299,13 +308,15 @@ pub fn gen_config(rng: &mut Rng, samples: &[String], p: &CallSetParams) -> Confi
         project: None,
         strict: false,
     };
-    if p.allow_project && rng.chance(1, 2) {
+    if p.allow_project && (rng.chance(1, 2) || (p.big_cohort && rng.chance(1, 2))) {
         let sizes = cfg.pop_sizes(samples);
         let shape = sizes
             .iter()
             .map(|&s| {
                 let full = 2 * s; // chromosomes
-                let m = match rng.below(8) {
+                let m = match rng.below(if full >= 170 { 10 } else { 8 }) {
+                    // projection targets at the bounds of the factorial table
+                    8 | 9 => (*rng.pick(&[169usize, 170, 171, 172, 173])).min(full),
                     0 | 1 => full,
                     2 | 3 => rng.range(0, full),
                     4 | 5 => (full / 2).max(1).min(full),
@@ -437,6 +448,8 @@ pub fn gen_rec(rng: &mut Rng, kind: u8, samples: &[String], cfg: &Config, contig
                 .copied()
                 .filter(|&c| c <= max)
                 .chain([max, max.saturating_sub(1), max / 2])
+                // the same boundaries for the REF count
+                .chain([170usize, 171, 172, 255, 256].iter().filter(|&&r| r <= max).map(|&r| max - r))
                 .collect();
             let c = *rng.pick(&wanted);
             let mut left = c;
@@ -490,7 +503,12 @@ pub fn gen_rec(rng: &mut Rng, kind: u8, samples: &[String], cfg: &Config, contig
 }
 
 pub fn gen_callset(rng: &mut Rng, p: &CallSetParams) -> (CallSet, Config) {
-    let samples = gen_samples(rng, p.max_samples);
+    let samples = if p.big_cohort {
+        let n = *rng.pick(&[86usize, 87, 90, 100, 128, 129, 171, 172, 256, 300]);
+        (0..n).map(|i| format!("s{i}")).collect()
+    } else {
+        gen_samples(rng, p.max_samples)
+    };
     let mut cfg = gen_config(rng, &samples, p);
     if !p.allow_project {
         cfg.project = None;
@@ -521,6 +539,10 @@ pub fn gen_callset(rng: &mut Rng, p: &CallSetParams) -> (CallSet, Config) {
     if cfg.project.is_none() {
         w[K_EXACT as usize] = 0;
         w[K_INSUFF as usize] = 0;
+    }
+    // large cohorts: exact counts at table / word-size boundaries are what they are for
+    if samples.len() > 64 && w[K_EXACT_COUNT as usize] > 0 {
+        w[K_EXACT_COUNT as usize] *= 5;
     }
     // low-diversity stretches: runs of sites that differ from their predecessor in one sample
     if w[K_NEAR_COPY as usize] > 0 && rng.chance(1, 8) {
